@@ -13,9 +13,11 @@ executes is that function instantiated with Mathlib's field structure on `Rat`.
 
 Transcription notes (code as it is in average_beads.py):
 * a dict is an association list in insertion order; `.get(k, d)` = first match or `d`;
-* a constituent counts as positioned iff `subnode.get('position') is not None`
-  (an array of NaN counts as a position for the code; the harness sends such an atom as
-  unpositioned, which is vermouth's own `selector_has_position` reading: finding F-C09-1);
+* a constituent counts as positioned iff `selectors.selector_has_position(subnode)`:
+  `position is not None and np.all(np.isfinite(position))` — the attribute is present, not `None`,
+  and EVERY coordinate is a finite number (`Atom.coords` keeps the three coordinates separately,
+  `none` = NaN/inf; `Atom.pos` is the position if all three are finite); since the fix of
+  F-C09-1 (8cf210c) this is what `do_average_bead` uses;
 * weight of a constituent = `mapping_weights.get(key, 1) * subnode.get(weight, 1)`,
   the table is looked up by the *node key* of the constituent; a missing
   `mapping_weights` attribute is the empty table; `weight=None` gives factor 1;
@@ -39,13 +41,25 @@ def assoc {α β : Type} [DecidableEq α] : List (α × β) → α → Option β
   | [], _ => none
   | (k', v) :: r, k => if k' = k then some v else assoc r k
 
-/-- An atom of the underlying (fine-grained) graph: its node key, its position
-(`none` = attribute missing or `None`) and its numeric attributes by name. -/
+/-- An atom of the underlying (fine-grained) graph: its node key, its `position` attribute
+(`none` = attribute missing or `None`; otherwise three coordinates, each `none` when it is not
+a finite number) and its numeric attributes by name. -/
 structure Atom (K : Type) where
   key : Int
-  pos : Option (V3 K)
+  coords : Option (V3 (Option K))
   attrs : List (String × K)
   deriving Repr
+
+/-- `selector_has_position`: the position of the atom if the attribute is there and ALL its
+coordinates are finite, else `none` (the atom is then "without coordinates"). -/
+def Atom.pos {K : Type} (a : Atom K) : Option (V3 K) :=
+  match a.coords with
+  | some ⟨some x, some y, some z⟩ => some ⟨x, y, z⟩
+  | _ => none
+
+/-- an atom with a fully defined position -/
+def Atom.at {K : Type} (key : Int) (p : V3 K) (attrs : List (String × K)) : Atom K :=
+  ⟨key, some ⟨some p.x, some p.y, some p.z⟩, attrs⟩
 
 /-- A particle of the molecule being updated: `'graph'` (absent = `none`) as the
 list of its atoms in the subgraph's node order and `'mapping_weights'`
@@ -100,7 +114,7 @@ inductive Outcome (K : Type) where
   | valueError
   /-- per particle: `none` = untouched (no 'graph'), `some none` = NaN, `some (some p)` -/
   | ok (l : List (Option (Option (V3 K))))
-  deriving Repr
+  deriving Repr, DecidableEq
 
 def lacksAttr (w : String) (b : Bead K) : Bool :=
   match b.graph with
@@ -142,6 +156,22 @@ def runMolecule (eps : K) (self : WeightArg) (ffVar : Option String) (ignoreMiss
     (mol : List (Bead K)) : Outcome K :=
   doAverageBead eps mol ignoreMissing (selectWeight self ffVar)
 
+/-- the `DoAverageBead` object: its two constructor arguments are its whole state -/
+structure Proc where
+  ignoreMissing : Bool
+  weight : WeightArg
+  deriving Repr, DecidableEq
+
+/-- one `run_molecule` call: the molecule comes with the `center_weight` variable of ITS force
+field; returns the processor afterwards (the code does not assign to `self`) and the outcome -/
+def procStep (eps : K) (p : Proc) (op : Option String × List (Bead K)) : Proc × Outcome K :=
+  (p, runMolecule eps p.weight op.1 p.ignoreMissing op.2)
+
+/-- one processor object applied to a sequence of molecules -/
+def runHistory (eps : K) (p : Proc) : List (Option String × List (Bead K)) → List (Outcome K)
+  | [] => []
+  | op :: ops => (procStep eps p op).2 :: runHistory eps (procStep eps p op).1 ops
+
 end generic
 
 /-! ### the instance that is executed -/
@@ -159,6 +189,9 @@ def doAverageBeadQ (mol : List (Bead Rat)) (ignoreMissing : Bool) (weight : Opti
 def runMoleculeQ (self : WeightArg) (ffVar : Option String) (ignoreMissing : Bool)
     (mol : List (Bead Rat)) : Outcome Rat :=
   runMolecule epsQ self ffVar ignoreMissing mol
+
+def runHistoryQ (p : Proc) (ops : List (Option String × List (Bead Rat))) : List (Outcome Rat) :=
+  runHistory epsQ p ops
 
 /-- quantisation to 2^-30 (round half up), used only to cross the protocol boundary -/
 def quant (q : Rat) : Int := (q * 1073741824 + 1 / 2).floor
